@@ -70,6 +70,8 @@ def run_one(eng, prop, tier, master, index):
     rng = derive_rng(master, prop, index)
     sc = eng.generate(prop, rng, index, tier)
     sc["_seed"] = [int(master), int(index)]
+    # the scenario, not the generator, is the replay format: execute exactly what a replay file would hold
+    sc = json.loads(json.dumps(sc))
     res = eng.execute(sc)
     return sc, res
 
@@ -136,7 +138,7 @@ def shrink_task(prop, scenario, sig, budget, wall):
     eng = _ENGINE
     t0 = time.time()
     execs = 0
-    cur = scenario
+    cur = json.loads(json.dumps(scenario))
     cur_size = len(canon(cur))
     improved = True
     steps = 0
@@ -149,6 +151,7 @@ def shrink_task(prop, scenario, sig, budget, wall):
             if size >= cur_size:
                 continue
             execs += 1
+            cand = json.loads(json.dumps(cand))
             try:
                 res = eng.execute(cand)
             except (HarnessError, SimAbort, Exception):
@@ -215,7 +218,7 @@ def write_json(path, obj):
     os.makedirs(os.path.dirname(path), exist_ok=True)
     tmp = path + ".tmp%d" % os.getpid()
     with open(tmp, "w") as f:
-        json.dump(obj, f, indent=1, sort_keys=True, default=_json_default)
+        json.dump(obj, f, indent=1, sort_keys=False, default=_json_default)
         f.write("\n")
     os.replace(tmp, path)
 
